@@ -33,8 +33,11 @@ pub trait CmRDT {
     spec fn cm_pre(&self, op: &Self::Op) -> bool;
     spec fn cm_post(old_: &Self, op: &Self::Op, new_: &Self) -> bool;
 
+    /// extra precondition of validate_op (hypotheses on type parameters that the invariant cannot carry)
+    spec fn cm_vpre(&self, op: &Self::Op) -> bool;
+
     fn validate_op(&self, op: &Self::Op) -> Result<(), Self::Validation>
-        requires self.cm_inv();
+        requires self.cm_inv(), self.cm_vpre(op);
 
     fn apply(&mut self, op: Self::Op)
         requires old(self).cm_inv(), old(self).cm_pre(&op),
